@@ -22,13 +22,17 @@ EXHAUSTIVE = True
 RULE = ('case = pre-existing sys / threading trace functions (none or a host function each) x NO_TRACE x 0-3 custom plugins '
         'x a sequence of 1-11 operations (start, shutdown, hit = run a traced host function with a log tracepoint, late config '
         'update, failing poll, the application installing OTHER trace functions while the agent is shut down followed by a '
-        'second start/shutdown cycle) where every shutdown carries a fault assignment: which plugins raise in shutdown() (Exception or '
+        'second start/shutdown cycle; under NO_TRACE also ANOTHER TOOL installing / removing the sys and the threading trace '
+        'function separately BETWEEN start and shutdown of one cycle) where every shutdown carries a fault assignment: which plugins raise in shutdown() (Exception or '
         'BaseException class), which of 0-3 pending sends fail, whether the sends are still in flight when shutdown starts (gated '
         'per send: failing ones finish first, the others stay parked beyond the point a non-draining shutdown would return), '
         'whether a thread started before the shutdown keeps running afterwards. The first shutdown of a case enumerates ALL '
         'subsets of its fault points (plugins + sends <= 4) across consecutive cases. Run on a real deep.api.Deep with the '
         'gRPC module replaced by a fake channel. Non-trivial = some fault was active during a shutdown of a started agent, '
-        'or a pre-existing trace function was present, or NO_TRACE.')
+        'or a pre-existing trace function was present, or NO_TRACE. start/shutdown of the model are the TRANSLATED method '
+        'bodies (Extracted.DeepLC plans run by Lifecycle.execPlan). Separate stream (outside the quantifier, correspondence '
+        'only): one service call of the first Deep.start raises (load_plugins / trigger_handler.start / grpc.start / '
+        'poll.start), retry, shutdown.')
 TRUSTED = ['sys.settrace / threading.settrace / Thread.join / ThreadPoolExecutor behave as documented (CPython)',
            'the translated TriggerHandler.start/shutdown/new_config (Extracted.TH) — validated by this correspondence run']
 ASSUMPTIONS = ['the host does not change the trace functions itself between start and shutdown',
@@ -113,12 +117,29 @@ def gen(rng, tier):
             else:
                 tail.append({'op': 'late_config'})
         head = [{'op': 'start'}]
+        if base['no_trace'] and rng.random() < 0.75:
+            # NO_TRACE exists so that ANOTHER tool (debugger, coverage) can use the trace functions while the agent is
+            # alive: it installs / removes them between start and shutdown — sys and threading hooks separately
+            cur = [1 if base['pre_sys'] else None, 2 if base['pre_thr'] else None]
+            for _ in range(rng.randint(1, 2)):
+                which = rng.choice(['sys', 'thr', 'both'])
+                tag[0] += 2
+                if which in ('sys', 'both'):
+                    cur[0] = None if (cur[0] is not None and rng.random() < 0.5) else tag[0] - 1
+                if which in ('thr', 'both'):
+                    cur[1] = None if (cur[1] is not None and rng.random() < 0.5) else tag[0]
+                head.append({'op': 'host_set', 'sys': cur[0], 'thr': cur[1]})
+                if rng.random() < 0.4:
+                    head.append({'op': 'hit'})
         if rng.random() < 0.3:
             head.append({'op': 'start'})
         if rng.random() < 0.7:
             head.append({'op': 'hit'})
         if rng.random() < 0.4:
             head.append({'op': 'poll_fail'})
+        if rng.random() < 0.15:
+            # shutdown() of an instance that was never started does nothing — in particular a later start() still starts
+            head.insert(0, {'op': 'shutdown', 'plugin_faults': [], 'task_faults': [], 'ntask': 0, 'cls': 'exc', 'running': False})
         bg = rng.random() < 0.5
         subsets = list(all_subsets(nplug + ntask))
         if tier == 'quick' and len(subsets) > 6:
@@ -145,6 +166,16 @@ def gen(rng, tier):
             yield {'kind': 'handler', 'pre_sys': base['pre_sys'], 'pre_thr': base['pre_thr'], 'ops': ops}
         if rng.random() < 0.08:
             yield dict(OTHER_THREAD, own_hook=rng.random() < 0.5)       # labelled known-finding stream
+        if rng.random() < 0.3:
+            # separate stream (outside C14's quantifier, compared with the translated Deep.start only): one service call
+            # of the first start raises, the application retries, then shuts down
+            c = dict(base)
+            c['update'] = False
+            c['start_step_fails'] = rng.choice(['load_plugins', 'th_start', 'grpc_start', 'poll_start'])
+            c['ops'] = [{'op': 'start'}, {'op': 'start'}, {'op': 'hit'},
+                        {'op': 'shutdown', 'plugin_faults': [], 'task_faults': [], 'ntask': 0, 'cls': 'exc', 'running': False},
+                        {'op': 'hit'}]
+            yield c
         if rng.random() < 0.25:
             # separate stream: the first start fails while loading plugins, then is retried
             c = dict(base)
@@ -176,6 +207,16 @@ def corpus():
     return [
         # D17: NO_TRACE and a pre-existing trace function
         {'pre_sys': 'h', 'pre_thr': 'h', 'no_trace': True, 'nplug': 0, 'ops': [{'op': 'start'}, dict(sd), {'op': 'hit'}]},
+        # NO_TRACE, a debugger attaches after start (sys only, then threading too), the agent shuts down: left alone
+        {'pre_sys': None, 'pre_thr': None, 'no_trace': True, 'nplug': 0,
+         'ops': [{'op': 'start'}, {'op': 'host_set', 'sys': 5, 'thr': None}, {'op': 'host_set', 'sys': 5, 'thr': 6}, dict(sd),
+                 {'op': 'hit'}]},
+        # NO_TRACE, the functions present at start are removed while the agent is alive: shutdown must not resurrect them
+        {'pre_sys': 'h', 'pre_thr': 'h', 'no_trace': True, 'nplug': 1,
+         'ops': [{'op': 'start'}, {'op': 'host_set', 'sys': None, 'thr': 2}, {'op': 'host_set', 'sys': None, 'thr': None}, dict(sd)]},
+        # shutdown() before the first start() is a no-op: the start that follows starts the agent
+        {'pre_sys': 'h', 'pre_thr': None, 'no_trace': False, 'nplug': 1,
+         'ops': [dict(sd), {'op': 'start'}, {'op': 'hit'}, dict(sd), {'op': 'hit'}]},
         # D18: a thread started before shutdown keeps running
         {'pre_sys': None, 'pre_thr': None, 'no_trace': False, 'nplug': 1,
          'ops': [{'op': 'start'}, {'op': 'hit'}, dict(sd, bg_thread=True), {'op': 'hit'}, {'op': 'late_config'}, {'op': 'hit'}]},
@@ -256,6 +297,12 @@ def run_case(case, out):
             dmod.load_plugins = orig_load
             raise StartFails('plugins cannot be loaded')
         dmod.load_plugins = failing_once
+    step_fails = case.get('start_step_fails')
+    if step_fails == 'load_plugins':
+        def failing_once2(*a, **k):
+            dmod.load_plugins = orig_load
+            raise StartFails('plugins cannot be loaded')
+        dmod.load_plugins = failing_once2
     # the service: NO_CHANGE, or (part of the cases) an UPDATE that carries the tracepoint
     g['grpc'].update = ([{'id': 'hit', 'path': h.files['probe'], 'line': h.marks['probe']['P'],
                           'args': {'snapshot': 'no_collect', 'log_msg': 'hit {c}', 'fire_count': '-1', 'fire_period': '0'}}]
@@ -267,6 +314,14 @@ def run_case(case, out):
     try:
         deep = Deep(ConfigService(custom, tracepoints=TracepointConfigService()))
         handler = deep.trigger_handler
+        if step_fails in ('th_start', 'grpc_start', 'poll_start'):
+            svc = {'th_start': deep.trigger_handler, 'grpc_start': deep.grpc, 'poll_start': deep.poll}[step_fails]
+            real_start = svc.start
+
+            def start_once():
+                svc.start = real_start
+                raise StartFails(step_fails + ' fails')
+            svc.start = start_once
 
         def nlogs():
             return len([e for e in rec.events if e[1] == 'log'])
@@ -390,9 +445,14 @@ def run_case(case, out):
                         return 'late'
 
                     def late_submitter():
-                        if not flush_entered.wait(10):
-                            late['error'] = 'flush not entered'
-                            return
+                        t9 = time.time()
+                        while not flush_entered.wait(0.01):
+                            if returned.is_set():
+                                late['no_flush'] = True         # shutdown returned without ever draining: an observation
+                                return
+                            if time.time() - t9 > 10:
+                                late['error'] = 'flush not entered'
+                                return
                         time.sleep(0.005)
                         try:
                             late['future'] = th.submit_task(late_task)
@@ -440,7 +500,8 @@ def run_case(case, out):
                     def staged():
                         if op.get('late_submit'):
                             t1 = time.time()
-                            while not late.get('submitted') and 'error' not in late and time.time() - t1 < 10:
+                            while not late.get('submitted') and 'error' not in late and not late.get('no_flush') \
+                                    and time.time() - t1 < 10:
                                 time.sleep(0.002)       # the pending sends stay parked until the late delivery was offered
                         time.sleep(0.01)
                         for i in op['task_faults']:
@@ -467,6 +528,8 @@ def run_case(case, out):
                     if lt.is_alive() or 'error' in late:
                         raise core.Infra('late submitter: ' + str(late.get('error', 'did not finish')))
                     in_flight = bool(late.get('accepted')) and not late['future'].done()
+                    if late.get('no_flush'):
+                        late['accepted'] = False
                     late_gate.set()
                     if late.get('accepted'):
                         try:
@@ -475,7 +538,7 @@ def run_case(case, out):
                             pass
                     late_obs = {'accepted': bool(late.get('accepted')), 'in_flight_at_return': in_flight,
                                 'ran_after_return': bool(late.get('ran_after_return')),
-                                'refused_with': late.get('refused_with')}
+                                'refused_with': late.get('refused_with'), 'no_flush': bool(late.get('no_flush'))}
                     th.flush = orig_flush
                 release_all()
                 npolls = len(ch.polls) if ch is not None else 0
@@ -656,6 +719,14 @@ def oracle(case, obs):
             if (st['sys'], st['thr']) != want:
                 v.append(f'{where}: the trace functions are {(st["sys"], st["thr"])}, expected {want}')
         return v
+    if case.get('start_step_fails'):
+        # failing start steps are not in C14's quantifier: judged only for "the failing start raises, the retry starts"
+        starts = [st for st in obs['states'] if st['op'] == 'start']
+        if len(starts) >= 2 and (not starts[0]['raised'] or starts[1]['raised'] or not starts[1]['started']):
+            v.append(f'start with a failing {case["start_step_fails"]}: first start raised {starts[0]["raised"]}, retry raised '
+                     f'{starts[1]["raised"]} started {starts[1]["started"]}')
+        v += [f'host function returned {st["ret"]}' for st in obs['states'] if st['op'] == 'hit' and st['ret'] != 11]
+        return v
     plugs = ['P99'] + [f'P{i}' for i in range(case['nplug'])]
     stopped_once = False
     for i, st in enumerate(obs['states']):
@@ -697,6 +768,8 @@ def oracle(case, obs):
                 if not st['pending_done']:
                     v.append(f'{where}: {st["ntask"]} pending sends were not all waited for')
                 lo = st.get('late')
+                if lo and lo.get('no_flush'):
+                    v.append(f'{where}: shutdown returned without draining delivery (TaskHandler.flush was never called)')
                 if lo and (lo['in_flight_at_return'] or lo['ran_after_return']):
                     v.append(f'{where}: a delivery handed over while shutdown was draining was accepted and still in flight '
                              f'when shutdown() returned: it reaches the service after the agent is shut down')
@@ -733,9 +806,15 @@ def model_request(case, obs):
         return {'op': 'handler', 'init': {'sys': 1 if case['pre_sys'] else None, 'thr': 2 if case['pre_thr'] else None},
                 'ops': case['ops']}
     ops = []
+    first = True
     for op in case['ops']:
         k = op['op']
-        if k == 'start':
+        if k == 'start' and first and case.get('start_step_fails'):
+            first = False
+            ops.append({'op': 'start', 'fails': case['start_step_fails']})
+            ops.append({'op': 'noop'})          # no config arrives: the start failed
+        elif k == 'start':
+            first = False
             ops.append({'op': 'start'})
             ops.append({'op': 'new_config', 'cfg': [1]})
         elif k == 'shutdown':
@@ -775,6 +854,8 @@ def compare(case, obs, resp):
             d.append(f'op {i} {op["op"]}: hooks model {mh} vs implementation {ih}')
         if m['started'] != st['started']:
             d.append(f'op {i} {op["op"]}: started model {m["started"]} vs implementation {st["started"]}')
+        if op['op'] == 'start' and ms[j - 2]['raised'] != bool(st['raised']):
+            d.append(f'op {i}: start raises: model {ms[j - 2]["raised"]} vs implementation {st["raised"]}')
         if op['op'] == 'shutdown':
             if m['raised'] != bool(st['raised']):
                 d.append(f'op {i}: shutdown raises: model {m["raised"]} vs implementation {st["raised"]}')
@@ -808,7 +889,10 @@ def label(case, obs):
     return ('notrace' if case['no_trace'] else 'trace') + ('/update' if case.get('update') else '') + '/' + \
            ('pre' if (case['pre_sys'] or case['pre_thr']) else 'nopre') + '/' + \
            (f'faults{len(f.get("plugin_faults", [])) + len(f.get("task_faults", []))}' if sd else 'noshutdown') + \
-           ('/retry' if case.get('start_fails_first') else '')
+           ('/retry' if case.get('start_fails_first') else '') + \
+           ('/incycle-hostset' if case['no_trace'] and any(o['op'] == 'host_set' for o in case['ops'][:next(
+               (k for k, o in enumerate(case['ops']) if o['op'] == 'shutdown'), 0)]) else '') + \
+           (('/startfail-' + case['start_step_fails']) if case.get('start_step_fails') else '')
 
 
 def nontrivial(case, obs):
@@ -820,7 +904,10 @@ def nontrivial(case, obs):
 
 
 def valid(case):
-    """the application changes its trace functions only while the agent is not started (assumption of C14)"""
+    """the application changes its trace functions only while the agent is not TRACING (assumption of C14): not between
+    start and shutdown, unless NO_TRACE is set (then the agent never installs anything and any tool may use them)"""
+    if case.get('no_trace'):
+        return True
     started = False
     for o in case['ops']:
         if o['op'] == 'start':
